@@ -174,6 +174,8 @@ def make_case(name, cfg, r, tier, with_history, export=True):
              "fparts %d %s" % (n, " ".join(hx(v) for p in parts for v in p)),
              "build bs=%d mode=%d" % (bs, mode),
              "mark built", "dump zero", "dump leaves", "dump groups", "digest"] + (["export data", "export rhs"] if export else [])
+    if nrhs > 0:
+        lines.append("dump tsmleaves bs=%d mode=%d" % (bs, mode))      # what a target/source tree stores on each side for the same particles
     moves_per_cycle = []
     if nrhs > 0:
         lines += ["mark exec1", "fexec", "digest", "dump rhs"] + (["export rhs", "export data"] if export else [])
